@@ -22,4 +22,3 @@ def check(ctx, rep):
     W.rule_M11(m, rep)
     W.rule_G1(m, rep)
     S.rule_E1(ctx, rep)
-    S.rule_lock_discipline(ctx, rep, 'D1')
